@@ -129,6 +129,8 @@ class _Gen:
                 self._set(i, _size_tok(s))
                 return f"acq {i} {s}", i
             n, s = rng.choice([1, 1, 2, 3, 4, 16]), _rsize(rng) % 700 + 1
+            if self.boundary and CFGS[self.cfg][1] and self.nfake < 40 and rng.random() < 0.2:
+                n, s = rng.choice([(65536, 65537), (3, 2147483648), (2, 4294967296), (4294967297, 3), (1, 4294967296), (1 << 20, 1 << 20)])
             self._set(i, n * s)
             return f"calloc {i} {n} {s}", i
         if r < 0.58:
@@ -300,12 +302,16 @@ def big_case(rng, lvl, cfg, n=1100):
         band = any(0.93 * c <= len(live) <= 1.02 * c for c in (1024, 2048))
         if live and (band or rng.random() < 0.1):
             k = rng.choice(list(live))
-            if band or rng.random() < 0.5:
+            if band:        # a removal at this population size, and the block comes straight back: the population keeps growing
+                ops.append(f"rel p{k}")
+                ops.append(f"acq p{k} {live[k]}")
+            elif rng.random() < 0.5:
                 ops.append(f"rel p{k}")
                 del live[k]
             else:
                 live[k] = rng.randint(1, 64)
                 ops.append(f"realloc p{k} {live[k]} {rng.choice(['keep', 'move'])}")
+    assert len(live) > (1030 if n < 2000 else 1950), "big_case must outgrow the tracer's table"
     ks = list(live)
     rng.shuffle(ks)
     for k in ks[:len(ks) // 2]:
@@ -392,7 +398,8 @@ def gen_cases(rng, tier):
         cases += injection_sweep(lvl)
     cases += injection_sweep("bytes", "minimal") + injection_sweep("stacks", "norealloc")
     cases += exhaustive_cases("bytes") + exhaustive_cases("bytes", "minimal")
-    cases += [big_case(rng, "bytes", "full"), big_case(rng, "stacks", rng.choice(["full", "minimal"]))]
+    # the second one also fills the once-grown table (2048 slots) up to its own threshold: long probe sequences there
+    cases += [big_case(rng, "bytes", "full"), big_case(rng, "stacks", rng.choice(["full", "minimal"]), 2100)]
     if tier == "thorough":
         cases += [big_case(rng, rng.choice(["bytes", "stacks"]), rng.choice(list(CFGS)), rng.choice([1100, 2100])) for _ in range(10)]
     if tier == "thorough":
@@ -631,6 +638,8 @@ def oracle(case, lines):
                         allowed = [(tb, tc)]
                 if it[0] in ("acq", "calloc", "realloc"):
                     check_blk(nxt(), bi, op + " [injected " + " ".join(it) + "]")
+                    if peek() is not None and peek().startswith("W @inj moved="):
+                        nxt()
                 if it[0] == "dump":
                     while peek() is not None and (peek().startswith("P @inj dump") or peek().startswith("W @inj dump")):
                         nxt()
@@ -640,6 +649,8 @@ def oracle(case, lines):
         bi = ref.apply(t)
         if t[0] in ("acq", "calloc", "realloc"):
             check_blk(nxt(), bi, op)
+            if peek() is not None and peek().startswith("W moved="):
+                nxt()
         if t[0] == "dump":
             l = nxt()
             tb, tc = ref.total()
